@@ -28,14 +28,15 @@ deriving DecidableEq, Repr, Inhabited
     colon, `:name` runs to the next `/`, `*` ends the pattern (text after it is ignored) -/
 def normAux : Nat → Str → List Tok × List Str
   | 0, _ => ([], [])
-  | _, [] => ([], [])
-  | f + 1, '\\' :: ':' :: rest => let (t, n) := normAux f rest; (.lit ':' :: t, n)
-  | f + 1, ':' :: rest =>
-    let name := rest.takeWhile (· ≠ '/')
-    let (t, n) := normAux f (rest.dropWhile (· ≠ '/'))
-    (.param :: t, name :: n)
-  | _ + 1, '*' :: _ => ([.any], ["*".toList])
-  | f + 1, c :: rest => let (t, n) := normAux f rest; (.lit c :: t, n)
+  | _ + 1, [] => ([], [])
+  | f + 1, c :: rest =>
+    if c = '\\' ∧ rest.head? = some ':' then
+      let (t, n) := normAux f rest.tail; (.lit ':' :: t, n)
+    else if c = ':' then
+      let (t, n) := normAux f (rest.dropWhile (· ≠ '/'))
+      (.param :: t, rest.takeWhile (· ≠ '/') :: n)
+    else if c = '*' then ([.any], ["*".toList])
+    else let (t, n) := normAux f rest; (.lit c :: t, n)
 
 def norm (p : Str) : List Tok × List Str :=
   let p := normalizeSlash p
